@@ -118,7 +118,6 @@ type fidCaseOut struct {
 	Notes    []string    `json:"notes,omitempty"`
 }
 
-func b64(b []byte) string { return base64.StdEncoding.EncodeToString(b) }
 
 type fidRecorder struct {
 	mu   sync.Mutex
